@@ -165,7 +165,7 @@ func runC07(run *Run, replay string) {
 			}
 			toks := tokensS(sc.Src)
 			dec := decodedKeysS(sc.Main.Schema)
-			schS := bodySchemaS(sc.Main.Schema)
+			schS := sc.schemaS()
 			bodyS_ := bodyS(body)
 			tbl := lcTable(sc.Src)
 			loc := map[string]interface{}{"seed": run.Res.Seed, "base": bi, "scenario": si, "kind": sc.Kind, "src": string(sc.Src), "max_candidates": max}
